@@ -1308,6 +1308,13 @@ where
 			let mut batch = Vec::with_capacity(unchecked_batch.len());
 
 			for call in unchecked_batch {
+				// Only a JSON object can be a request or a notification; the derived visitors would also accept
+				// a positional array such as `["2.0", 1, "method"]`.
+				if !call.get().starts_with('{') {
+					batch.push(Err(BatchEntryErr::new(Id::Null, ErrorCode::InvalidRequest.into())));
+					continue;
+				}
+
 				if let Ok(req) = deserialize_with_ext::call::from_str(call.get(), &extensions) {
 					batch.push(Ok(BatchEntry::Call(req)));
 				} else if let Ok(notif) = deserialize_with_ext::notif::from_str::<Notif>(call.get(), &extensions) {
